@@ -334,13 +334,17 @@ class H2Protocol:
             )
         except priority.MissingStreamError:
             # Received PRIORITY frame before HEADERS frame
-            self.priority.insert_stream(
-                stream_id=event.stream_id,
-                depends_on=event.depends_on or None,
-                weight=event.weight,
-                exclusive=event.exclusive,
-            )
-            self.priority.block(event.stream_id)
+            try:
+                self.priority.insert_stream(
+                    stream_id=event.stream_id,
+                    depends_on=event.depends_on or None,
+                    weight=event.weight,
+                    exclusive=event.exclusive,
+                )
+            except priority.TooManyStreamsError:
+                pass  # Ignore the priority information rather than fail
+            else:
+                self.priority.block(event.stream_id)
         await self.has_data.set()
 
     async def _create_stream(
@@ -388,6 +392,13 @@ class H2Protocol:
         except priority.DuplicateStreamError:
             # Recieved PRIORITY frame before HEADERS frame
             pass
+        except priority.TooManyStreamsError:
+            # The priority tree is full (of streams that only ever
+            # sent PRIORITY frames), refuse this stream only.
+            del self.streams[request.stream_id]
+            del self.stream_buffers[request.stream_id]
+            self.connection.reset_stream(request.stream_id, h2.errors.ErrorCodes.REFUSED_STREAM)
+            return
         else:
             self.priority.block(request.stream_id)
 
